@@ -43,6 +43,17 @@ def prepare(cdir):
     lock = os.path.join(REPO, "Cargo.lock")
     if os.path.exists(lock):
         shutil.copy(lock, os.path.join(cdir, "Cargo.lock"))
+    # rule R9: function-local macros of /repo extracted into src/generated.rs on every run
+    from . import macrofn
+
+    text, meta = macrofn.generate()
+    gp = os.path.join(cdir, "src", "generated.rs")
+    old = open(gp).read() if os.path.exists(gp) else None
+    if old != text:
+        with open(gp, "w") as f:
+            f.write(text)
+    with open(os.path.join(BUILD, "generated_meta.json"), "w") as f:
+        json.dump(meta, f, indent=1)
 
 
 def parse_terse(out):
@@ -88,7 +99,10 @@ def parse_terse(out):
 
 def run_kani(harnesses, timeout_s=300, jobs=12, extra=()):
     cdir = crate_dir()
-    prepare(cdir)
+    try:
+        prepare(cdir)
+    except Exception as e:  # lost anchor in a macro (rule R9): undecided, never an alarm
+        return {}, "extraction failed: %s" % e, -2, "(not run)", 0.0
     cmd = ["cargo", "kani", "-Z", "unstable-options", "--harness-timeout", "%ds" % timeout_s, "-j", str(jobs), "--output-format=terse", "-Z", "function-contracts", "-Z", "stubbing"]
     for h in harnesses:
         cmd += ["--harness", h]
@@ -125,6 +139,7 @@ def playback(harness, timeout_s=300):
 
 def build_replay():
     cdir = crate_dir()
+    prepare(cdir)
     e = env()
     e["CARGO_TARGET_DIR"] = os.path.join(BUILD, "replay-target")
     p = subprocess.run(["cargo", "build", "--offline", "--bin", "replay"], cwd=cdir, env=e, capture_output=True, text=True, timeout=1800)
